@@ -114,7 +114,13 @@ def close_abs(a, b, tol):
 # --------------------------------------------------------------------------------------------------
 @contextlib.contextmanager
 def _patched(mod, name, fn):
-    orig = getattr(mod, name)
+    """wrap mod.name for the duration of the block.  A helper that no longer exists (private function renamed,
+    inlined, an import dropped) is simply NOT OBSERVED: nothing is wrapped, nothing raised (audit-3 X3); what
+    the missing observation means is decided by the views (correspondence side)."""
+    orig = getattr(mod, name, None)
+    if orig is None or not callable(orig):
+        yield
+        return
     setattr(mod, name, fn(orig))
     try:
         yield
@@ -130,65 +136,59 @@ def recording(rec):
 
     cur = {}
 
+    def noting(note):
+        """wrapper factory: forwards the call unchanged (any calling convention); `note(result)` writes into `cur`
+        and may fail (another return shape) — then that item is simply not observed (audit-3 X3)"""
+        def w(orig):
+            def f(*a, **k):
+                r = orig(*a, **k)
+                try:
+                    note(r)
+                except Exception:
+                    pass
+                return r
+
+            return f
+
+        return w
+
     def w_top(orig):
         def f(*a, **k):
             cur.clear()
             out = orig(*a, **k)
-            cur["out"] = [float(x) for x in out]
+            try:
+                cur["out"] = [float(x) for x in out]
+            except Exception:
+                pass
             rec["groups"].append(dict(cur))
             return out
 
         return f
 
-    def w_pi(orig):
-        def f(*a, **k):
-            d, tot = orig(*a, **k)
-            cur["rows"] = {k2: [float(x) for x in v] for k2, v in d.items()}
-            cur["total"] = float(tot)
-            return d, tot
+    def n_pi(r):
+        d, tot = r
+        cur["rows"] = {k2: [float(x) for x in v] for k2, v in d.items()}
+        cur["total"] = float(tot)
 
-        return f
+    def n_ratios(d):
+        cur["ratios"] = {k2: float(v) for k2, v in d.items()}
 
-    def w_ratios(orig):
-        def f(*a, **k):
-            d = orig(*a, **k)
-            cur["ratios"] = {k2: float(v) for k2, v in d.items()}
-            return d
+    def n_stab(d):
+        cur["b"] = {k2: float(v) for k2, v in d.items()}
 
-        return f
+    def n_sys(r):
+        m, v = r
+        mat = [[int(x) if float(x).is_integer() else float(x) for x in row] for row in m.toarray().tolist()]
+        vec = [float(x) for x in v]
+        cur["matrix"], cur["vector"] = mat, vec
 
-    def w_stab(orig):
-        def f(*a, **k):
-            d = orig(*a, **k)
-            cur["b"] = {k2: float(v) for k2, v in d.items()}
-            return d
+    def n_lsqr(r):
+        cur["y"] = [float(x) for x in r[0]]
 
-        return f
+    def n_prune(g):
+        rec["graph"] = sorted([min(u, v), max(u, v)] for u, v in g.edges())
 
-    def w_sys(orig):
-        def f(*a, **k):
-            m, v = orig(*a, **k)
-            cur["matrix"] = [[int(x) if float(x).is_integer() else float(x) for x in row] for row in m.toarray().tolist()]
-            cur["vector"] = [float(x) for x in v]
-            return m, v
-
-        return f
-
-    def w_lsqr(orig):
-        def f(*a, **k):
-            r = orig(*a, **k)
-            cur["y"] = [float(x) for x in r[0]]
-            return r
-
-        return f
-
-    def w_prune(orig):
-        def f(*a, **k):
-            g = orig(*a, **k)
-            rec["graph"] = sorted([min(u, v), max(u, v)] for u, v in g.edges())
-            return g
-
-        return f
+    w_pi, w_ratios, w_stab, w_sys, w_lsqr, w_prune = (noting(n) for n in (n_pi, n_ratios, n_stab, n_sys, n_lsqr, n_prune))
 
     with contextlib.ExitStack() as st:
         st.enter_context(_patched(lfq, "_getLFQIntensities", w_top))
@@ -583,6 +583,27 @@ def table_cutoff(case):
     return Fraction(1)
 
 
+def table_cutoff_near_tie(case):
+    """the running mean of the sorted PEPs comes within rounding of the PSM-level FDR at some element: another
+    (equally correct) summation order may cross the level at a neighbouring element (c17_lists.near_tie, as in C17)"""
+    import c17_lists
+
+    peps = [Fraction(*fl(r[7]).as_integer_ratio()) for g in case["groups"] for r in g["rows"] if r[7] != "nan"]
+    return c17_lists.near_tie(peps, Fraction(*fl(case["psm_fdr"]).as_integer_ratio()))
+
+
+def table_cutoff_for_oracle(case, impl_out):
+    """the cutoff the table oracle judges with: its own recomputation; at a near-tie of the scan (where the cutoff is
+    C17's subject and not fixed to the ulp) the cutoff the run used, if it was observed, else None = not judged
+    (audit-3 C11-10)"""
+    if not table_cutoff_near_tie(case):
+        return table_cutoff(case)
+    c = (impl_out or {}).get("_rec", {}).get("cutoff") if isinstance(impl_out, dict) else None
+    if isinstance(c, float) and math.isfinite(c):
+        return Fraction(*c.as_integer_ratio())
+    return None
+
+
 def table_precursors(case, group, cutoff):
     """the oracle's own reading of one protein group's evidence rows: (selected per-sample precursors, all
     retained per-sample precursors) in the 6-field form of `spec`, samples numbered experiment-major with the
@@ -704,12 +725,21 @@ def run_table(case):
             from picked_group_fdr.columns import lfq
 
             def w_append(orig):
-                def f(self, protein_group_results, post_err_prob_cutoff):
-                    seen["experiments"] = list(protein_group_results.experiments)
-                    seen["channels"] = int(protein_group_results.num_silac_channels)
-                    seen["cutoff"] = float(post_err_prob_cutoff)
-                    seen["ids"] = [pgr.proteinIds for pgr in protein_group_results]
-                    return orig(self, protein_group_results, post_err_prob_cutoff)
+                def f(*a, **k):
+                    # any calling convention (audit-3 X1): bind by the signature of the real method, forward unchanged
+                    try:
+                        import inspect
+
+                        ba = inspect.signature(orig).bind(*a, **k).arguments
+                        vals = list(ba.values())
+                        pgrs, cut = vals[1], vals[2]
+                        seen["experiments"] = list(pgrs.experiments)
+                        seen["channels"] = int(pgrs.num_silac_channels)
+                        seen["cutoff"] = float(cut)
+                        seen["ids"] = [pgr.proteinIds for pgr in pgrs]
+                    except Exception:
+                        seen.setdefault("unreadable", True)
+                    return orig(*a, **k)
 
                 return f
 
@@ -1113,16 +1143,23 @@ class P(Prop):
             return self.run_impl_table(case)
         n = case["n"]
         outs, rec = self._base(case)
-        if len(rec["groups"]) != len(case["groups"]):
-            raise AssertionError("recorded %d groups of %d" % (len(rec["groups"]), len(case["groups"])))
+        recg = rec["groups"]
+        observed = len(recg) == len(case["groups"])
+        if not observed:
+            # the observation point _getLFQIntensities is gone or is called another number of times: the stage-A
+            # data are "not observed" (the views then differ: correspondence side); the LFQ values themselves come
+            # from the result objects and are still judged by the oracle (audit-3 X3)
+            recg = [{} for _ in case["groups"]]
         res = []
         ys = []
-        for out, r in zip(outs, rec["groups"]):
+        for out, r in zip(outs, recg):
             g = impl_group_view(r, case["stab"])
+            if not observed:
+                g["observed"] = False
             g["lfq"] = out
             res.append(g)
             ys.append(r.get("y"))
-        return {"groups": res, "_rec": {"graph": rec["graph"], "y": ys, "vector": [r.get("vector") for r in rec["groups"]]}}
+        return {"groups": res, "_rec": {"graph": rec["graph"], "y": ys, "vector": [r.get("vector") for r in recg]}}
 
     def run_impl_table(self, case):
         header, body, rec, seen = run_table(case)
@@ -1133,20 +1170,33 @@ class P(Prop):
         if inproc and not seen and not out["headers"]:
             inproc = False  # LFQIntensityColumns.is_valid was false (a single experiment): no LFQ columns, nothing recorded
             out["no_lfq"] = True
+        recof = {}
         if inproc:
             out["experiments"] = seen.get("experiments")
-            if seen.get("ids") != ids or len(rec["groups"]) != len(ids):
-                raise AssertionError("recorded %d MaxLFQ calls for groups %r, the table has the rows %r" % (len(rec["groups"]), seen.get("ids"), ids))
-        for k, pid in enumerate(ids):
+            # the k-th recorded _getLFQIntensities call belongs to the k-th protein group HANDED to append_columns
+            # (pairing by identifier, never by the position of the written row: C11 is silent on the row order and
+            # the cells are read by 'Protein IDs', audit-3 C11-7).  When the two do not line up (helper gone, another
+            # number of calls, identifiers repeated) the stage-A data are "not observed": the views then differ
+            # (correspondence side) and nothing is raised.
+            sids = seen.get("ids")
+            if isinstance(sids, list) and len(sids) == len(rec["groups"]) and len(set(sids)) == len(sids):
+                recof = dict(zip(sids, rec["groups"]))
+        used = []
+        for pid in ids:
             if inproc:
-                g = impl_group_view(rec["groups"][k], case["stab"])
-                g["lfq"] = rec["groups"][k]["out"]
+                r = recof.get(pid)
+                g = impl_group_view(r if r is not None else {}, case["stab"])
+                if r is None:
+                    g["observed"] = False
+                    r = {}
+                g["lfq"] = r.get("out")
+                used.append(r)
             else:
                 g = {}
             g["id"] = pid
             g["named"] = table_group_named(header, by_id[pid])
             out["groups"].append(g)
-        out["_rec"] = {"graph": rec["graph"], "y": [r.get("y") for r in rec["groups"]], "vector": [r.get("vector") for r in rec["groups"]],
+        out["_rec"] = {"graph": rec["graph"], "y": [r.get("y") for r in used], "vector": [r.get("vector") for r in used],
                        "cutoff": seen.get("cutoff"), "channels": seen.get("channels")}
         return out
 
@@ -1297,6 +1347,8 @@ class P(Prop):
                         if h1 != h2 or not abs(v1 - v2) <= TABLE_SLACK + 1e-9 * max(abs(v1), abs(v2)):
                             return False
             for x, y in zip(ga, gb):
+                if x.get("observed") is False or y.get("observed") is False:
+                    return False  # an observation point of the recorder is gone: correspondence not shown
                 for k in ("rows", "total", "pairs", "matrix"):
                     if x[k] != y[k]:
                         return False
@@ -1447,6 +1499,9 @@ class P(Prop):
         # 5b. sharp: the right-hand sides of the permuted run are the transported right-hand sides (sign by
         #     orientation) — this does not pass through lsqr, so 1e-9
         for gi in range(len(base)):
+            if impl_out["groups"][gi].get("observed") is False or len(rec6["groups"]) != len(base) or not (
+                    {"b", "ratios"} & set(rec6["groups"][gi])) and impl_out["groups"][gi]["b"]:
+                continue  # right-hand sides not observed (helper renamed/inlined): 5c below still judges the values
             b0 = {(i, j): v for i, j, v in impl_out["groups"][gi]["b"]}
             r6 = rec6["groups"][gi]
             d6 = (r6.get("b", r6.get("ratios", {})) if case["stab"] else r6.get("ratios", {})) or {}
@@ -1493,7 +1548,9 @@ class P(Prop):
                 return
         else:
             return
-        cutoff = table_cutoff(case)
+        cutoff = table_cutoff_for_oracle(case, impl_out)
+        if cutoff is None:
+            return  # near-tie of the PEP scan and the cutoff of the run was not observed: not judged
         graph = impl_out.get("_rec", {}).get("graph") if case["fast"] else None
         by_id = {g["id"]: g for g in impl_out["groups"]}
         # The samples are NUMBERED in the order in which their names appear in the written table: the orientation of a
@@ -1579,17 +1636,21 @@ class P(Prop):
     # -- known findings ---------------------------------------------------------------------------
     def kf_fastlfq_permutation(self, case, impl_out, rec):
         """sample-permutation failure of the end-to-end run while the FastLFQ edge filter is active
-        (fast_lfq on and >= 10 valid samples in some group); nothing else failed on this case"""
+        (fast_lfq on and >= 10 valid samples in some group).  The finding is recognised by its own signature
+        (category of the oracle failure + region of the case) whether or not the model also disagrees on this
+        case (audit-3 C11-5: a change that only breaks the correspondence must not turn it into a fresh failing
+        input; the broken correspondence is still reported from the cases outside the two known regions)."""
         o = rec.get("oracle")
-        if not isinstance(o, str) or not o.startswith("sample-permutation[e2e]") or rec.get("disagree") is not None:
+        if not isinstance(o, str) or not o.startswith("sample-permutation[e2e]"):
             return False
         return self._graph_active(case, impl_out)
 
     def kf_even_median_orientation(self, case, impl_out, rec):
         """sample-permutation failure where the permutation flips the orientation of a valid pair whose
-        median ratio is not antisymmetric (even shared-peptide count, unequal middle ratios)"""
+        median ratio is not antisymmetric (even shared-peptide count, unequal middle ratios); recognised by its
+        own signature, independent of the correspondence (audit-3 C11-5)"""
         o = rec.get("oracle")
-        if not isinstance(o, str) or not o.startswith("sample-permutation") or rec.get("disagree") is not None:
+        if not isinstance(o, str) or not o.startswith("sample-permutation"):
             return False
         return self._even_median_flip(case, impl_out)
 
